@@ -3,7 +3,7 @@
 SEEDS=${SEEDS:-"2 3 4"}
 export VERIF_REPO=${VP_RUN_REPO:-/repo}   # a snapshot of /repo when started with `vp run --with-repo` (immune to seed_try)
 for s in $SEEDS; do
-  for c in C01 C02 C03 C04 C05 C06 C07 C08 C09 C10 C11 C12 C13 C14 C15 C16 C17 C18 C19 C20; do
+  for c in ${CHECKS:-C01 C02 C03 C04 C05 C06 C07 C08 C09 C10 C11 C12 C13 C14 C15 C16 C17 C18 C19 C20}; do
     out=$(VERIF_SEED=$s ./check $c --tier ${TIER:-quick} 2>&1); rc=$?
     echo "seed=$s $c rc=$rc $(echo "$out" | grep -E "$c (quick|thorough):" | tail -1)"
     if [ $rc -ne 0 ]; then echo "$out" | grep -E "VIOLATION|oracle=|HARNESS|rror" | head -8; fi
